@@ -21,7 +21,8 @@ GUARDED_CLASSES = [
 FILES = ["pypika/queries.py", "pypika/terms.py", "pypika/dialects.py"]
 MUTATORS = {"append", "extend", "add", "remove", "insert", "pop", "clear", "update", "setdefault", "sort", "reverse", "discard",
             "popitem", "__setitem__", "__delitem__"}
-CROSS_OBJECT = {"do_join": ("QueryBuilder", "do_join"), "validate": ("JoinOn", "validate")}
+CROSS_OBJECT = {"do_join": ("QueryBuilder", "do_join"), "validate": ("JoinOn", "validate"),
+                "_with_join": ("QueryBuilder", "_with_join"), "validate_with": ("JoinOn", "validate_with")}
 MAX_PATHS = 4000
 
 
